@@ -105,3 +105,15 @@ mutant("c13-temporary-x64-finally-dropped", "C13", "jax2onnx/user_interface.py",
 mutant("c13-overwrite-jax-batcher", "C13", "jax2onnx/plugins/jax/numpy/cumsum.py", "batching.primitive_batchers[JnpCumSumPlugin._PRIM] = _cumsum_batch_rule", "batching.primitive_batchers[JnpCumSumPlugin._PRIM] = _cumsum_batch_rule\nbatching.primitive_batchers[jax.lax.cumsum_p] = _cumsum_batch_rule", expect="library registry")
 benign("c13-benign-flip-compare", "C13", "jax2onnx/converter/conversion_api.py", "    if previous != target:\n        jax.config.update(\"jax_enable_x64\", target)\n    try:", "    if target != previous:\n        jax.config.update(\"jax_enable_x64\", target)\n    try:")
 benign("c13-benign-rename-applied", "C13", "jax2onnx/plugins/_patching.py", "applied", "done_list", count=99)
+
+# ----------------------------------------------------------------------------- C19
+JT = "jax2onnx/plugins/jax/numpy/transpose.py"
+mutant("c19-param-renamed", "C19", JT, "def _patched(a: ArrayLike, axes: AxesArg = None) -> jax.Array:\n                arr = jnp.asarray(a)\n                axes_tuple = _normalize_axes(axes, arr.ndim)",
+       "def _patched(a: ArrayLike, perm: AxesArg = None) -> jax.Array:\n                arr = jnp.asarray(a)\n                axes_tuple = _normalize_axes(perm, arr.ndim)", expect="jax.numpy.transpose::axes::keyword")
+mutant("c19-param-made-keyword-only", "C19", JT, "def _patched(a: ArrayLike, axes: AxesArg = None) -> jax.Array:", "def _patched(a: ArrayLike, *, axes: AxesArg = None) -> jax.Array:", expect="jax.numpy.transpose::axes::positional#1")
+mutant("c19-optional-made-required", "C19", JT, "def _patched(a: ArrayLike, axes: AxesArg = None) -> jax.Array:", "def _patched(a: ArrayLike, axes: AxesArg) -> jax.Array:", expect="jax.numpy.transpose::axes::omitted")
+mutant("c19-argument-silently-dropped", "C19", JT, "                axes_tuple = _normalize_axes(axes, arr.ndim)", "                axes_tuple = _normalize_axes(None, arr.ndim)", expect="jax.numpy.transpose::axes")
+mutant("c19-argument-deleted", "C19", "jax2onnx/plugins/jax/numpy/squeeze.py", "                arr = jnp.asarray(a)\n                dims = _resolve_dimensions(", "                arr = jnp.asarray(a)\n                del axis\n                axis = None\n                dims = _resolve_dimensions(", expect="jax.numpy.squeeze::axis")
+mutant("c19-bind-key-not-accepted", "C19", JT, "return cls._PRIM.bind(arr, permutation=axes_tuple)", "return cls._PRIM.bind(arr, permutation=axes_tuple, conjugate=False)", expect="conjugate")
+benign("c19-benign-extra-kwargs-catchall", "C19", JT, "def _patched(a: ArrayLike, axes: AxesArg = None) -> jax.Array:", "def _patched(a: ArrayLike, axes: AxesArg = None, *more: object) -> jax.Array:\n                if more:\n                    raise TypeError('too many arguments')")
+benign("c19-benign-annotation-change", "C19", JT, "def _patched(a: ArrayLike, axes: AxesArg = None) -> jax.Array:", "def _patched(a: object, axes: object = None) -> jax.Array:")
